@@ -31,6 +31,7 @@ type KnownFinding struct {
 	Obligation string            `json:"obligation_regex,omitempty"` // matches the obligation name (line numbers stripped)
 	What       string            `json:"what_regex,omitempty"`       // matches the RAC failure label
 	Inputs     map[string]string `json:"inputs_regex,omitempty"`     // witness class: regex per shown input
+	InputsAny  []string          `json:"inputs_any_regex,omitempty"` // witness class: each regex must match some input
 	Text       string            `json:"text"`
 	Witness    string            `json:"canonical_witness,omitempty"`
 }
@@ -55,7 +56,7 @@ func stripLines(s string) string { return reLine.ReplaceAllString(s, ".go") }
 func (k *KnownFindings) matchObligation(prop, fn, name string) *KnownFinding {
 	for i := range k.Findings {
 		f := &k.Findings[i]
-		if f.Property != prop || f.Obligation == "" {
+		if !propIn(f.Property, prop) || f.Obligation == "" {
 			continue
 		}
 		if f.Function != "" && f.Function != fn {
@@ -71,7 +72,7 @@ func (k *KnownFindings) matchObligation(prop, fn, name string) *KnownFinding {
 func (k *KnownFindings) matchFailure(prop, fn string, fl RACFailure) *KnownFinding {
 	for i := range k.Findings {
 		f := &k.Findings[i]
-		if f.Property != prop || f.What == "" {
+		if !propIn(f.Property, prop) || f.What == "" {
 			continue
 		}
 		if f.Function != "" && f.Function != fn {
@@ -83,6 +84,17 @@ func (k *KnownFindings) matchFailure(prop, fn string, fl RACFailure) *KnownFindi
 		all := true
 		for p, re := range f.Inputs {
 			if ok, _ := regexp.MatchString(re, fl.Inputs[p]); !ok {
+				all = false
+			}
+		}
+		for _, re := range f.InputsAny {
+			some := false
+			for _, v := range fl.Inputs {
+				if ok, _ := regexp.MatchString(re, v); ok {
+					some = true
+				}
+			}
+			if !some {
 				all = false
 			}
 		}
@@ -225,6 +237,7 @@ func cmdCheck(args []string) {
 		loadOverlay = map[string][]byte{parts[0]: []byte(strings.Replace(string(data), parts[1], parts[2], 1))}
 	}
 	t0 := time.Now()
+	currentProperty = *prop
 	known := loadKnown()
 	quick := *tier != "thorough"
 	timeout := 10
@@ -622,4 +635,14 @@ func fileSafe(s string) string {
 		}
 	}
 	return b.String()
+}
+
+// propIn: a finding may list several property ids separated by commas.
+func propIn(list, prop string) bool {
+	for _, p := range strings.Split(list, ",") {
+		if strings.TrimSpace(p) == prop {
+			return true
+		}
+	}
+	return false
 }
